@@ -125,12 +125,25 @@ def compare_classes(tokens, rows):
     for c in cells + consts:
         if c["k"] == "l" and c["t"] == "int64" and int(c["v"]) < 0:
             cl.add("negative_int_compare")
-        if c["k"] == "l" and c["t"] == "float64" and not float_in_domain(c["v"]):
-            cl.add("float_format_compare")
+        if c["k"] == "l" and c["t"] == "float64":
+            f = T.float_of_bits(c["v"])
+            if f < 0:
+                cl.add("float_negative_compare")
+            if f >= 1e25 or f != f:
+                cl.add("float_width_compare")
         if c["k"] == "l" and c["t"] == "text" and any(b <= 0x22 for b in bytes.fromhex(c.get("v", ""))):
             cl.add("text_quote_compare")
         if c["k"] == "s" and any(b <= 0x22 for b in bytes.fromhex(c.get("s", ""))):
             cl.add("text_quote_compare")
+    # precision: only when two DIFFERENT float64 values involved have the same six-decimal rendering
+    fls = {c["v"] for c in cells + consts if c["k"] == "l" and c["t"] == "float64"}
+    k6 = {}
+    for b in fls:
+        f = T.float_of_bits(b)
+        if f == f and f not in (float("inf"), float("-inf")):
+            k6.setdefault(T.float_key6(b), set()).add(b)
+    if any(len(v) > 1 for v in k6.values()):
+        cl.add("float_precision_compare")
     times = [c for c in cells if c["k"] == "t"]
     if len({c.get("off", 0) for c in times}) > 1 or len({len(c["str"]) for c in times}) > 1:
         cl.add("anchor_string_compare_bindings")
@@ -213,6 +226,10 @@ def run(ctx):
     es = T.htable(["-mode", "e2esweep", "-n", 2 if ctx.tier == "thorough" else 1, "-seed", ctx.seed], timeout=1800)
     ctx.cov["statement_size_sweep"] = T.check_e2e_sweep(ctx, es, ("having",))
     ctx.cov["statement_size_sweep_note"] = "statements over graphs of 13..4099 (thorough: ..16385) triples, result compared with the spec in Python, not evaluated in Coq"
+    ctx.cov["cells_rendering_checked"] = T.check_renderings(
+        ctx, [c["rows"] for c in exprs] + [c["base"].get("rows") for c in e2e] + [c["res"].get("rows") for c in e2e] +
+        [[{"c": tk["lit"]["cell"]} for tk in c["tokens"] if tk.get("lit") and tk["lit"].get("cell")] for c in exprs] +
+        [[{"c": tk["lit"]["cell"]} for tk in c["extra"]["tokens"] if tk.get("lit") and tk["lit"].get("cell")] for c in e2e], "C13")
     T.replay_findings(ctx, "C13", "replay13")
     seen = set()
     for c in exprs:
